@@ -267,10 +267,19 @@ pub fn battery(root: &N, lang: SupportLang, m: &Material, rng: &mut Rng, share_v
   if all.len() < 3 {
     return out;
   }
+  let widest: Option<N> = all.iter().max_by_key(|x| x.children().len()).filter(|x| x.children().len() >= 12).cloned();
   let mut tries = 0;
   while out.len() < want && tries < want * 20 {
     tries += 1;
-    let n = rng.pick(&all).clone();
+    // a third of the picks are children of the widest node of the document (long sibling lists:
+    // statement lists, big literals, argument lists): sibling walks are exercised at every length
+    let n = match &widest {
+      Some(w) if rng.chance(1, 3) => {
+        let kids: Vec<N> = w.children().collect();
+        rng.pick(&kids).clone()
+      }
+      _ => rng.pick(&all).clone(),
+    };
     let anc: Vec<N> = n.ancestors().collect();
     let kind_of = |x: &N| json!({"kind": x.kind().to_string()});
     let okk = |x: &N| x.is_named() && !x.kind().is_empty() && x.kind() != "ERROR";
